@@ -69,6 +69,14 @@ type Replay struct {
 	Trace     []string          `json:"trace"`
 	TraceHash string            `json:"trace_hash"`
 	Faults    map[string]int    `json:"faults"`
+	// If the code under test keeps state of its own across runs (a package-level cache, a batch of random
+	// bytes) a run is not a function of its tape alone; it still is a function of the runs its worker
+	// executed before it. For that case the replay file also carries the unshrunk tape of the failing run
+	// and where its worker started: replaying runs [history_from, run_index) and then that tape in a
+	// fresh process reproduces the failure exactly.
+	OrigTape      []simrt.TapeEntry `json:"orig_tape,omitempty"`
+	OrigTraceHash string            `json:"orig_trace_hash,omitempty"`
+	HistoryFrom   *uint64           `json:"history_from,omitempty"`
 }
 
 // WorkerOut is the JSON a worker writes.
@@ -283,9 +291,24 @@ func Main(t *testing.T, h Harness) {
 		}
 		res := h.runOnce(t, simrt.NewTape(rp.Tape), rp.Tier, true)
 		ok := res.Violation != nil && h.sig(res.Violation) == rp.Signature && fmt.Sprintf("%016x", res.TraceHash) == rp.TraceHash
+		withHistory := false
+		if !ok && rp.HistoryFrom != nil && len(rp.OrigTape) > 0 && rp.RunIndex >= *rp.HistoryFrom && rp.RunIndex-*rp.HistoryFrom <= 3_000_000 && os.Getenv("VERIF_REPLAY_FRESH") == "" {
+			// second attempt, in a process of its own (the driver starts one with VERIF_REPLAY_HISTORY=1): the
+			// runs that preceded the failing one in its worker, then the failing run's own tape
+			if os.Getenv("VERIF_REPLAY_HISTORY") != "" {
+				for j := *rp.HistoryFrom; j < rp.RunIndex; j++ {
+					h.runOnce(t, simrt.NewRNG(simrt.SplitMix(rp.Seed, j)), rp.Tier, false)
+				}
+				res = h.runOnce(t, simrt.NewTape(rp.OrigTape), rp.Tier, true)
+				ok = res.Violation != nil && h.sig(res.Violation) == rp.Signature && fmt.Sprintf("%016x", res.TraceHash) == rp.OrigTraceHash
+				withHistory = true
+			}
+		}
 		wo.ReplayOK = &ok
 		if res.Violation == nil {
 			wo.ReplayMsg = "no violation on replay"
+		} else if withHistory {
+			wo.ReplayMsg = fmt.Sprintf("oracle=%s signature=%s trace_hash=%016x (recorded %s / %s), reproduced after the %d runs that preceded it in its worker: the code under test keeps state across runs\n%s", res.Violation.Oracle, h.sig(res.Violation), res.TraceHash, rp.Signature, rp.OrigTraceHash, rp.RunIndex-*rp.HistoryFrom, res.Violation.Detail)
 		} else {
 			wo.ReplayMsg = fmt.Sprintf("oracle=%s signature=%s trace_hash=%016x (recorded %s / %s)\n%s", res.Violation.Oracle, h.sig(res.Violation), res.TraceHash, rp.Signature, rp.TraceHash, res.Violation.Detail)
 		}
@@ -445,8 +468,10 @@ func Main(t *testing.T, h Harness) {
 					rec.MinLen = len(min)
 				}
 				if replayDir != "" {
+					hf := from
 					rp := Replay{Property: h.ID, Oracle: rec.Oracle, Signature: sig, Detail: rec.Detail, Seed: seed, RunIndex: i, Tier: tier,
-						Tape: min, Trace: rr.Trace, TraceHash: fmt.Sprintf("%016x", rr.TraceHash), Faults: rr.Faults}
+						Tape: min, Trace: rr.Trace, TraceHash: fmt.Sprintf("%016x", rr.TraceHash), Faults: rr.Faults,
+						OrigTape: res.Tape, OrigTraceHash: fmt.Sprintf("%016x", res.TraceHash), HistoryFrom: &hf}
 					os.MkdirAll(replayDir, 0o755)
 					path := filepath.Join(replayDir, fmt.Sprintf("%s-%d-%d.json", h.ID, seed, i))
 					js, _ := json.MarshalIndent(rp, "", " ")
